@@ -39,11 +39,14 @@ TupleSlots == { [hint |-> h, doc |-> d] : h \in {"int", "str"}, d \in {"int", "s
 (* a third result that only the docstring knows (the hint is a pair): a type given by one source only is used, so it is a result, too *)
 DocOnly == [hint |-> "absent", doc |-> "listint"]
 Universe(style, pref, warn) ==
-  { [params |-> ps, res |-> r, res2 |-> Absent, res3 |-> Absent, style |-> style, pref |-> pref, warn |-> warn]
+  { [params |-> ps, res |-> r, res2 |-> Absent, res3 |-> Absent, unnamed |-> FALSE, style |-> style, pref |-> pref, warn |-> warn]
       : ps \in { <<>> } \cup { <<a>> : a \in Slots } \cup { <<a, b>> : a \in Slots, b \in Slots }, r \in Slots }
   \cup (IF style = "NUMPYDOC"
-        THEN { [params |-> <<>>, res |-> r, res2 |-> r2, res3 |-> r3, style |-> style, pref |-> pref, warn |-> warn]
+        THEN { [params |-> <<>>, res |-> r, res2 |-> r2, res3 |-> r3, unnamed |-> FALSE, style |-> style, pref |-> pref, warn |-> warn]
                : r \in TupleSlots, r2 \in TupleSlots, r3 \in { Absent, DocOnly } }
+             \* the same two results documented without names (entries are then told apart by their position only)
+             \cup { [params |-> <<>>, res |-> r, res2 |-> r2, res3 |-> Absent, unnamed |-> TRUE, style |-> style, pref |-> pref, warn |-> warn]
+                    : r \in { x \in TupleSlots : x.doc # "free" }, r2 \in { x \in TupleSlots : x.doc # "free" } }
         ELSE {})
 
 VARIABLES sc, pc, i, chosen, log
@@ -105,7 +108,7 @@ Judge(s, obs) ==
       \cup
       (IF or # er THEN { [property |-> "C14", clause |-> "Type",
                            sig |-> "result:" \o s.style \o ":" \o s.pref \o ":"
-                                   \o (IF s.res2 # Absent THEN (IF s.res3 # Absent THEN "two-results-and-a-documented-third:" ELSE "two-results:") \o s.res.doc \o "+" \o s.res2.doc
+                                   \o (IF s.res2 # Absent THEN (IF s.res3 # Absent THEN "two-results-and-a-documented-third:" ELSE IF s.unnamed THEN "two-unnamed-results:" ELSE "two-results:") \o s.res.doc \o "+" \o s.res2.doc
                                        ELSE IF s.res.hint = "none" THEN "doc-only-" \o s.res.doc ELSE IF Conflict(s.res) THEN "conflict" ELSE "agree"),
                            expected |-> ToString(er), observed |-> ToString(or)] } ELSE {})
       \cup
